@@ -1,5 +1,6 @@
 """C03 — validate / safeParse / parse agree; parsed data is a faithful projection of the input."""
 import collections
+import random
 import re
 from lib import common, rstage
 from lib.vals import *
@@ -206,6 +207,28 @@ KNOWN_CLASSES = {
 }
 
 
+def builtin_union_cases(seed, n):
+    """unions of object types of which several accept the same input while a built-in value (typed array, Date, RegExp-like
+    leaf, bigint) sits at the same position in all of them: the union's deep merge of the members' results must keep that leaf"""
+    r = random.Random(seed)
+    leaves = [(("TypedArray", "Uint8Array"), TYPED("Uint8Array", [1, 2, 3])), (("TypedArray", "Float64Array"), TYPED("Float64Array", [7])),
+              (("Date",), DATE(86400000)), (("BigInt",), BIG(5)), (("Typeof", "string"), S("s"))]
+    cases = []
+    for i in range(n):
+        t, v = r.choice(leaves[:3] if i % 2 == 0 else leaves)
+        a = ("Object", [("data", t), ("name", ("Optional", ("Typeof", "string")))], [])
+        b = ("Object", [("data", t), ("offset", ("Optional", ("Typeof", "number")))], [])
+        u = ("AnyOf", [a, b])
+        val = OBJ([("data", v)])
+        shape = i % 4
+        if shape == 0: rt, vals, env = u, [val, OBJ([("data", v), ("name", S("x"))])], []
+        elif shape == 1: rt, vals, env = ("Array", u), [ARR([val, val])], []
+        elif shape == 2: rt, vals, env = ("Object", [("p", ("Ref", "U"))], []), [OBJ([("p", val)])], [("U", u)]
+        else: rt, vals, env = ("AnyOf", [a, b, ("Object", [("data", t)], [])]), [val], []
+        cases.append({"env": env, "rt": rt, "vals": vals, "source": "builtin-union"})
+    return cases
+
+
 def check(run):
     ok = run.prove("Props.C03", THEOREMS, ["Props/C03.vo"])
     common.ensure_harness()
@@ -214,6 +237,7 @@ def check(run):
     cases += rstage.gen_cases(run.seed + 303, 150 if quick else 2500, 5 if quick else 10, depth=3)
     cases += rstage.gen_cases(run.seed + 304, 30 if quick else 500, 5, depth=4)
     cases += rstage.gen_forced(run.seed + 305, 80 if quick else 1600, 6)
+    cases += builtin_union_cases(run.seed + 306, 16 if quick else 200)
     rows = evaluate(cases)
     cov = run.coverage
     disagree = [r for r in rows if r["js"][:3] != r["model"]]
